@@ -314,11 +314,30 @@ def flux_file(value: float, shape=(2, 3)) -> str:
     return f
 
 
-def real_model_dict(model: dict, variant: int, shape=(2, 3)) -> dict:
-    """The library model that stands for an abstract flux / conv / collect model.
+def stored_detector_file(stored: dict, shape=(2, 3), kind="ccd") -> str:
+    """An .asdf file holding a detector whose buckets are at the levels of `stored`."""
+    import hashlib
+    d = os.path.join(os.environ.get("VERIF_WORK", VERIF + "/.work"), "flux_files")
+    os.makedirs(d, exist_ok=True)
+    h = hashlib.sha1(json.dumps([stored, shape, kind], sort_keys=True).encode()).hexdigest()[:12]
+    f = os.path.join(d, f"detector_{h}.asdf")
+    if not os.path.exists(f):
+        det = make_detector(kind, *shape)
+        load_prior(det, stored)
+        tmp = os.path.join(d, f"detector_{h}.{os.getpid()}.asdf")
+        det.save(tmp)
+        os.replace(tmp, f)
+    return f
+
+
+def real_model_dict(model: dict, variant: int, shape=(2, 3), cfg: dict | None = None) -> dict:
+    """The library model that stands for an abstract flux / conv / collect / loaddet model.
     `base` is the rate per tick: level per second = base * TICK."""
     kind, b, base = model["kind"], model["b"], model["base"]
     name, en = model["name"], bool(model["enabled"])
+    if kind == "loaddet":
+        return {"func": "pyxel.models.load_detector", "name": name, "enabled": en,
+                "arguments": {"filename": stored_detector_file(cfg["stored"], shape)}}
     if kind == "flux" and b == "photon":
         if variant % 3 == 0:
             return {"func": "pyxel.models.photon_collection.illumination", "name": name, "enabled": en,
@@ -342,7 +361,7 @@ def real_model_dict(model: dict, variant: int, shape=(2, 3)) -> dict:
     raise ValueError(kind)
 
 
-REAL_KINDS = ("flux", "conv", "collect")
+REAL_KINDS = ("flux", "conv", "collect", "loaddet")
 
 
 def build_pipeline(cfg: dict, extra: dict | None = None, real: int | None = None, shape=(2, 3)):
@@ -353,7 +372,7 @@ def build_pipeline(cfg: dict, extra: dict | None = None, real: int | None = None
     for k, gname in enumerate(GROUPS):
         models = cfg["pipe"][k]
         if models:
-            kw[gname] = [ModelFunction(**(real_model_dict(m, real, shape)
+            kw[gname] = [ModelFunction(**(real_model_dict(m, real, shape, cfg)
                                           if real is not None and m["kind"] in REAL_KINDS
                                           else model_dict(m, cfg.get("imgdt", "uint16"), extra)))
                          for m in models]
